@@ -170,3 +170,49 @@ pub fn wall_clock(root: &Path) -> Vec<(String, i64, String)> {
     }
     out
 }
+
+/// Ageing leg: one process verifies something, keeps running, and verifies layouts whose expiry
+/// lies *after* that first verification - once before and once after their expiry.
+/// (label, expires text, seconds past expiry when the call started, seconds past expiry when it
+/// returned, outcome); negative = before expiry.
+pub fn ageing(root: &Path) -> Vec<(String, String, f64, f64, String)> {
+    let o = key(5);
+    let a = key(0);
+    let d = fresh(root, "ageing");
+    let mut out = vec![];
+    // the process's first verification (whatever a process-wide cache would latch on to)
+    let first = Metablock::new(MetadataWrapper::Layout(layout(vec![], &[], Utc::now() + Duration::days(365))), &[&o]).unwrap();
+    let _ = in_toto_verify(&first, owners(&[&o]), d.to_str().unwrap(), None);
+    let t0 = Utc::now();
+    let base = DateTime::<Utc>::from_timestamp(t0.timestamp(), 0).unwrap();
+    // a delegated layout that will expire too, under a parent that does not
+    let sub_dir = d.join(format!("s.{}", &kid(&a)[..8]));
+    std::fs::create_dir_all(&sub_dir).unwrap();
+    let mut cases: Vec<(String, DateTime<Utc>, Metablock)> = vec![];
+    for secs in [2i64, 3] {
+        let exp = base + Duration::seconds(secs);
+        cases.push((format!("top-level expiring {secs} s after the first verification"), exp, Metablock::new(MetadataWrapper::Layout(layout(vec![], &[], exp)), &[&o]).unwrap()));
+    }
+    let sub_exp = base + Duration::seconds(3);
+    let b = key(1);
+    let sub = Metablock::new(MetadataWrapper::Layout(layout(vec![step("in", 1, &[&b])], &[&b], sub_exp)), &[&a]).unwrap();
+    write_link(&d, "s", &a, &sub);
+    write_link(&sub_dir, "in", &b, &Metablock::new(MetadataWrapper::Link(link("in", &[("m", 1)], &[("q", 5)])), &[&b]).unwrap());
+    let parent = Metablock::new(MetadataWrapper::Layout(layout(vec![step("s", 1, &[&a])], &[&a], Utc::now() + Duration::days(365))), &[&o]).unwrap();
+    cases.push(("delegated layout expiring 3 s after the first verification, parent unexpired".to_string(), sub_exp, parent));
+    let rel = |t: DateTime<Utc>, exp: DateTime<Utc>| (t - exp).num_milliseconds() as f64 / 1000.0;
+    for round in ["before", "after"] {
+        if round == "after" {
+            let until = base + Duration::milliseconds(4200);
+            let wait = (until - Utc::now()).num_milliseconds().max(0) as u64;
+            std::thread::sleep(std::time::Duration::from_millis(wait));
+        }
+        for (label, exp, mb) in &cases {
+            let started = Utc::now();
+            let r = outcome(in_toto_verify(mb, owners(&[&o]), d.to_str().unwrap(), None));
+            let returned = Utc::now();
+            out.push((format!("{label} [{round}]"), exp.to_rfc3339(), rel(started, *exp), rel(returned, *exp), r));
+        }
+    }
+    out
+}
